@@ -121,6 +121,8 @@ def run(ck):
             if out2.get("%s%d" % (tag, i)) != b.hex():
                 ck.violation("single-block decryption is not the inverse of encryption", {"class": None, "key": k.hex(), "block": b.hex(), "direction": tag, "got": out2.get("%s%d" % (tag, i))})
     related_key_sequences(ck, exe)
+    unoptimised_build_runs(ck, [c.line for c in cases if c.cls.split("/")[-1] in ("fips197-B", "fips197-C1", "random")][:60]
+                           + ["mode %s %d %s %s %s" % ("ed"[i % 2], i % 5, rnd16(r).hex(), (rnd16(r) + b"abcd").hex(), (rnd16(r) * 3).hex()) for i in range(10)], "single-block AES / mode streams")
     early_and_copied_objects(ck, exe)
     parallel_purity(ck, exe, ["aes %s %s %s" % (r.choice("ed"), rnd16(r).hex(), rnd16(r).hex()) for _ in range(24)], "single-block AES objects with different keys", iters=3000)
     ck.cov["optional_openssl_crosscheck"] = openssl_crosscheck(ck, cases)
